@@ -77,8 +77,26 @@ pub fn default_runs(cfg: &Cfg, len: usize) -> Vec<(&'static str, Vec<Op>)> {
     ]
 }
 
-fn dev_alphabet(p: &Pair) -> Vec<Op> {
+/// `item_of`: for the public-update run, the item behind each offered hash. The hook screens
+/// chosen hashes with its own copy of the rule, so the boundary cases of the REAL screen in
+/// `update` (hash == theta, largest retained, smallest screened-out) are re-offered as items.
+fn dev_alphabet(p: &Pair, item_of: Option<&BTreeMap<u64, u64>>) -> Vec<Op> {
     let mut d = vec![Op::ThetaMinus(1), Op::ThetaMinus(0), Op::Hash(1), Op::Trim, Op::Reset];
+    if let Some(m) = item_of {
+        let theta = p.s.theta64();
+        let mut hs: Vec<u64> = vec![];
+        if p.offered.contains(&theta) {
+            hs.push(theta);
+        }
+        hs.extend(p.offered.range(1..theta).next_back().copied());
+        hs.extend(p.offered.range(theta + 1..).next().copied());
+        hs.extend(p.offered.iter().next().copied());
+        for h in hs {
+            if let Some(&it) = m.get(&h) {
+                d.push(Op::Item(it));
+            }
+        }
+    }
     if let Some(&mn) = p.offered.iter().next() {
         d.push(Op::Hash(mn)); // duplicate of the smallest
     }
@@ -118,11 +136,16 @@ fn run_deep(ctx: &Ctx, cfg: &Cfg, bound: usize, grid1: usize, grid2: usize, obs:
         let stride1 = (run.len() / grid1.max(1)).max(1);
         let stride2 = (run.len() / grid2.max(1)).max(1);
         let init = Pair::new(*cfg);
+        let item_of: Option<BTreeMap<u64, u64>> = if matches!(run.first(), Some(Op::Item(_))) {
+            Some(run.iter().filter_map(|o| if let Op::Item(i) = o { Some((thetam::item_hash(*i, cfg.seed), *i)) } else { None }).collect())
+        } else {
+            None
+        };
         let stats = engine::deviations(
             &init,
             &run,
             bound,
-            &|_pos, _lvl, p: &Pair| dev_alphabet(p),
+            &|_pos, _lvl, p: &Pair| dev_alphabet(p, item_of.as_ref()),
             &|pos, lvl| if lvl == 0 { pos % stride1 == 0 } else { pos % stride2 == 0 },
             &|p: &mut Pair, op: &Op, trace: &[(usize, Op)], pos: usize| {
                 let mut e = BTreeMap::new();
@@ -327,7 +350,7 @@ pub fn run(ctx: &Ctx) -> i32 {
         "exhaustive": true,
         "bounds": {
             "configs": "lg_k {5,6,8} (thorough adds 7 and spot runs at 10,12,16) x 4 resize factors x p {1, 0.5, 2^-10} x seeds",
-            "E2": "five default runs of 4k offers (ascending, descending, alternating, two full-probe collision classes, public update of items against the reference hash) with every single deviation {theta-1, theta, 1, duplicate of min/max retained, max+1, trim, reset} on a position grid; bound 2 at lg_k 5 (6)",
+            "E2": "five default runs of 4k offers (ascending, descending, alternating, two full-probe collision classes, public update of items against the reference hash) with every single deviation {theta-1, theta, 1, duplicate of min/max retained, max+1, trim, reset; on the public-update run also the ITEMS whose hash is theta / the largest retained / the smallest screened-out / the smallest} on a position grid; bound 2 at lg_k 5 (6)",
             "E1": "BFS depth 4-6 from the empty state and from the states just before each resize/rebuild, merged on (retained set, theta, table size)",
         },
     });
